@@ -2,6 +2,7 @@ package sx
 
 import (
 	"fmt"
+	"strconv"
 	"go/types"
 	"strings"
 
@@ -93,6 +94,52 @@ func init() {
 			}
 		}
 		return Tuple{in.i64(0), in.ts.False}, true
+	})
+	vf("vfFloatOf", func(in *Interp, th *Thread, fn *ssa.Function, a []Value) (Value, bool) {
+		switch x := a[0].(type) {
+		case Slice:
+			if x.Arr != nil && x.Arr.FloatOf != nil {
+				return Tuple{x.Arr.FloatOf, in.ts.True}, true
+			}
+			if x.Arr != nil && x.Arr.Num != nil {
+				return Tuple{in.ts.IntToF(x.Arr.Num, true, F64Sort), in.ts.True}, true
+			}
+			if b := in.bytesOf(x); true {
+				s := in.mkStr(b)
+				if s.IsConcrete() {
+					if f, err := strconv.ParseFloat(s.S, 64); err == nil {
+						return Tuple{in.ts.F64Const(f), in.ts.True}, true
+					}
+				}
+			}
+		}
+		return Tuple{in.ts.F64Const(0), in.ts.False}, true
+	})
+	vf("vfCase", func(in *Interp, th *Thread, fn *ssa.Function, a []Value) (Value, bool) {
+		// vfCase(name, word): word with the letter case of every letter symbolic (one bool each, no fork)
+		name := in.concreteStr(a[0], "vf name")
+		word := in.concreteStr(a[1], "vfCase word")
+		b := make([]*Term, len(word))
+		for i := 0; i < len(word); i++ {
+			c := word[i]
+			lo, up := c, c
+			if c >= 'a' && c <= 'z' {
+				up = c - 32
+			} else if c >= 'A' && c <= 'Z' {
+				lo = c + 32
+			}
+			if lo == up {
+				b[i] = in.ts.BVConst(8, uint64(c))
+				continue
+			}
+			bit := in.fresh(fmt.Sprintf("%s.up%d", name, i), "bool", BoolSort)
+			b[i] = in.ts.Ite(bit, in.ts.BVConst(8, uint64(up)), in.ts.BVConst(8, uint64(lo)))
+		}
+		return in.newByteSlice(b), true
+	})
+	vf("vfIsOpaque", func(in *Interp, th *Thread, fn *ssa.Function, a []Value) (Value, bool) {
+		x, ok := a[0].(Slice)
+		return in.ts.Bool(ok && x.Arr.opaque()), true
 	})
 	vf("vfAssume", func(in *Interp, th *Thread, fn *ssa.Function, a []Value) (Value, bool) {
 		in.assume(in.asTerm(a[0]))
@@ -210,7 +257,7 @@ func init() {
 	})
 	vf("vfBytesEq", func(in *Interp, th *Thread, fn *ssa.Function, a []Value) (Value, bool) {
 		x, y := a[0].(Slice), a[1].(Slice)
-		if (x.Arr != nil && x.Arr.Num != nil) || (y.Arr != nil && y.Arr.Num != nil) {
+		if x.Arr.opaque() || y.Arr.opaque() {
 			return in.strEq(in.bytesToStr(x), in.bytesToStr(y)), true
 		}
 		if x.Len != y.Len {
@@ -535,6 +582,9 @@ var _ = types.Typ
 func (in *Interp) bytesToStr(x Slice) Str {
 	if x.Arr != nil && x.Arr.Num != nil {
 		return Str{Num: x.Arr.Num}
+	}
+	if x.Arr != nil && x.Arr.FloatOf != nil {
+		return Str{FloatOf: x.Arr.FloatOf, S: "<float>"}
 	}
 	return in.mkStr(in.bytesOf(x))
 }
